@@ -896,6 +896,9 @@ class Interp:
         if not hasattr(self, 'callstack'):
             self.callstack = []
         self.callstack.append((full, 0))
+        if not hasattr(self, 'framestack'):
+            self.framestack = []
+        self.framestack.append(fr)          # (callee contracts may read ghost arguments from the caller's frame)
         try:
             if isinstance(fi.node, ast.Lambda):
                 return self.ev(fi.node.body, fr)
@@ -907,6 +910,7 @@ class Interp:
         finally:
             self.depth -= 1
             self.callstack.pop()
+            self.framestack.pop()
 
     # ================================================================== statements
     def exec_block(self, stmts, fr):
